@@ -20,7 +20,7 @@ type c12Case struct {
 	UTF8, ReqTLS, Binary, DSN, RRVS bool
 	Size                            int64
 	MaxRcpt                         int
-	TLS                             string // none | available | active
+	TLS                             string // none | available | active | active-noconfig (TLS listener handed to Serve, Server.TLSConfig nil)
 	Insecure                        bool
 	AuthBackend                     bool
 	LMTP                            bool
@@ -34,14 +34,14 @@ func init() {
 }
 
 func c12Run(ctx *core.Ctx) {
-	ctx.Rule = "the complete configuration space: 5 extension flags x MaxMessageBytes {0, 1000} x MaxRecipients {0, 2} x TLS {none, available, active (implicit TLS)} x AllowInsecureAuth x backend {auth-capable, not} x {SMTP, LMTP} = 3072 configurations; for each: EHLO/LHLO capability set compared (order-free, exact arguments) with a reference function written from the statement, HELO must list none, then one probe per extension (parameter accepted iff enabled, 504 iff disabled), STARTTLS, AUTH, SIZE=n+1, RCPTMAX and BDAT probes; after a successful STARTTLS the capability set is checked again for the TLS state. Non-trivial: every configuration; distinct by configuration."
+	ctx.Rule = "the complete configuration space: 5 extension flags x MaxMessageBytes {0, 1000} x MaxRecipients {0, 2} x TLS {none, available, active (implicit TLS), active with Server.TLSConfig unset (TLS listener handed to Serve)} x AllowInsecureAuth x backend {auth-capable, not} x {SMTP, LMTP} = 3072 configurations of the statement plus 1024 for the fourth TLS state; for each: EHLO/LHLO capability set compared (order-free, exact arguments) with a reference function written from the statement, HELO must list none, then one probe per extension (parameter accepted iff enabled, 504 iff disabled), STARTTLS, AUTH, SIZE=n+1, RCPTMAX and BDAT probes; after a successful STARTTLS the capability set is checked again for the TLS state. Non-trivial: every configuration; distinct by configuration."
 	ctx.Exhaustive = true
 	ctx.Assumptions = []string{"AUTH= MAIL parameter on servers not advertising AUTH is not judged", "REQUIRETLS parameter on a plaintext connection of a server that enables it is not judged"}
 	core.RunCases(ctx, func(emit func(c12Case)) {
 		for m := 0; m < 32; m++ {
 			for _, size := range []int64{0, 1000} {
 				for _, mr := range []int{0, 2} {
-					for _, tls := range []string{"none", "available", "active"} {
+					for _, tls := range []string{"none", "available", "active", "active-noconfig"} {
 						for _, ins := range []bool{false, true} {
 							for _, ab := range []bool{false, true} {
 								for _, lm := range []bool{false, true} {
@@ -65,7 +65,7 @@ func c12Run(ctx *core.Ctx) {
 // c12Caps is the reference capability function.
 func c12Caps(c c12Case, tlsActive bool) []string {
 	caps := []string{"PIPELINING", "8BITMIME", "ENHANCEDSTATUSCODES", "CHUNKING"}
-	if c.TLS != "none" && !tlsActive {
+	if (c.TLS == "available" || c.TLS == "active") && !tlsActive {
 		caps = append(caps, "STARTTLS")
 	}
 	if (tlsActive || c.Insecure) && c.AuthBackend {
@@ -111,7 +111,7 @@ func c12Exec(ctx *core.Ctx, c c12Case) {
 			s.MaxMessageBytes = c.Size
 			s.MaxRecipients = c.MaxRcpt
 			s.AllowInsecureAuth = c.Insecure
-			if c.TLS != "none" {
+			if c.TLS == "available" || c.TLS == "active" {
 				s.TLSConfig = wire.ServerTLS()
 			}
 		})
@@ -126,10 +126,10 @@ func c12Exec(ctx *core.Ctx, c c12Case) {
 	var rig *wire.Rig
 	var p *wire.Peer
 	var all []wire.Reply
-	tlsActive := c.TLS == "active"
+	tlsActive := strings.HasPrefix(c.TLS, "active")
 	open := func() bool {
 		rig = mk()
-		if c.TLS == "active" {
+		if strings.HasPrefix(c.TLS, "active") {
 			var err error
 			p, err = rig.DialTLS()
 			if err != nil {
@@ -141,7 +141,7 @@ func c12Exec(ctx *core.Ctx, c c12Case) {
 		} else {
 			p = rig.Dial()
 		}
-		tlsActive = c.TLS == "active"
+		tlsActive = strings.HasPrefix(c.TLS, "active")
 		g, err := p.ReadReply()
 		all = append(all, g)
 		return err == nil
@@ -373,7 +373,7 @@ func c12Exec(ctx *core.Ctx, c c12Case) {
 	// STARTTLS last
 	if !failed && fresh() {
 		r := cmd("STARTTLS")
-		adv := c.TLS != "none" && !tlsActive
+		adv := (c.TLS == "available" || c.TLS == "active") && !tlsActive
 		switch {
 		case adv && r.Code != 220:
 			fail("C12:starttls-advertised-not-honoured", fmt.Sprintf("STARTTLS answered %s", r))
@@ -385,6 +385,12 @@ func c12Exec(ctx *core.Ctx, c c12Case) {
 			} else {
 				tlsActive = true
 				checkCaps()
+				if !failed && c.AuthBackend {
+					// AUTH is advertised inside TLS: it must be honoured there, whatever happened in plaintext
+					if r := cmd("AUTH VERIF b2s="); r.Code != 235 {
+						fail("C12:auth-advertised-not-honoured", fmt.Sprintf("inside TLS AUTH is advertised but AUTH VERIF was answered %s", r))
+					}
+				}
 				if !failed {
 					if r := cmd("STARTTLS"); r.Class() != 5 {
 						fail("C12:starttls-inside-tls", fmt.Sprintf("STARTTLS inside TLS answered %s", r))
@@ -399,7 +405,7 @@ func c12Exec(ctx *core.Ctx, c c12Case) {
 	if !failed {
 		cls := fmt.Sprintf("tls=%s/lmtp=%v", c.TLS, c.LMTP)
 		if ctx.WantSample(cls) {
-			ctx.Sample(cls, map[string]any{"config": fmt.Sprintf("%+v", c), "advertised_initially": c12Caps(c, c.TLS == "active")})
+			ctx.Sample(cls, map[string]any{"config": fmt.Sprintf("%+v", c), "advertised_initially": c12Caps(c, strings.HasPrefix(c.TLS, "active"))})
 		}
 	}
 }
